@@ -60,7 +60,7 @@ struct vp_seed {
   unsigned long cpus, nodes;           /* root cpuset / nodeset words */
 };
 static struct vp_seed vp_seed;
-static int vp_seed_id;
+static int vp_seed_id, vp_seed_err;
 static unsigned long vp_seed_flags;
 
 static hwloc_obj_t vp_ins(struct hwloc_topology *t, hwloc_obj_type_t ty, unsigned idx, unsigned long cpus, unsigned long nodes)
@@ -86,6 +86,9 @@ static int vp_seed_discover(struct hwloc_backend *b, struct hwloc_disc_status *d
 {
   struct hwloc_topology *t = b->topology; struct vp_seed *s = &vp_seed;
   (void) d;
+#ifdef VP_SEED_DISCOVER_HOOK
+  if (vp_seed_id >= 100) return VP_SEED_DISCOVER_HOOK(b, d);      /* fixtures of the including harness (>= 200: the backend sets the root sets itself) */
+#endif
   if (vp_seed_id == 3) {
     s->pu[0] = vp_ins(t, HWLOC_OBJ_PU, 0, 0x1, 0);
     s->numa[0] = vp_ins(t, HWLOC_OBJ_NUMANODE, 0, 0x1, 0x1);
@@ -123,6 +126,9 @@ static int vp_seed_discover_io(struct hwloc_backend *b, struct hwloc_disc_status
 {
   struct hwloc_topology *t = b->topology; struct vp_seed *s = &vp_seed;
   (void) d;
+#ifdef VP_SEED_IO_HOOK
+  if (vp_seed_id >= 100) return VP_SEED_IO_HOOK(b, d);
+#endif
   if (vp_seed_id != 2) return 0;
   s->bridge = vp_ins_child(t, s->pkg[0], HWLOC_OBJ_BRIDGE, HWLOC_UNKNOWN_INDEX);
   s->bridge->attr->bridge.upstream_type = HWLOC_OBJ_BRIDGE_HOST; s->bridge->attr->bridge.downstream_type = HWLOC_OBJ_BRIDGE_PCI;
@@ -133,7 +139,14 @@ static int vp_seed_discover_io(struct hwloc_backend *b, struct hwloc_disc_status
   return 0;
 }
 
-static struct hwloc_backend vp_be; static struct hwloc_disc_component vp_comp;
+#ifdef VP_SEED_BACKEND_EXTRA
+/* a backend with private data: HWLOC_BACKEND_PRIVATE_DATA() is the memory right behind struct hwloc_backend */
+static struct { struct hwloc_backend be; VP_SEED_BACKEND_EXTRA extra; } vp_be_s;
+#define vp_be vp_be_s.be
+#else
+static struct hwloc_backend vp_be;
+#endif
+static struct hwloc_disc_component vp_comp;
 
 /* build seed `id` with topology flags `flags`; every type filter is KEEP_ALL unless VP_SEED_FILTER_HOOK tweaks it */
 static struct hwloc_topology *vp_seed_build(int id, unsigned long flags)
@@ -163,19 +176,24 @@ static struct hwloc_topology *vp_seed_build(int id, unsigned long flags)
 #endif
   hwloc_internal_distances_init(t);
   hwloc_internal_memattrs_init(t);
+#ifdef VP_SEED_MEMATTRS_PREPARE
+  hwloc_internal_memattrs_prepare(t);       /* the built-in attributes, as hwloc_topology_load() does unless NO_MEMATTRS is set */
+#endif
   hwloc_internal_cpukinds_init(t);
   hwloc_topology_setup_defaults(t);
   t->state = HWLOC_TOPOLOGY_STATE_IS_LOADING;
   t->flags = flags;
-  hwloc_alloc_root_sets(t->levels[0][0]);
+  if (id < 200) hwloc_alloc_root_sets(t->levels[0][0]);
   vp_seed.obj[vp_seed.nobj++] = t->levels[0][0];
-  vp_comp.name = "vpseed"; vp_be.component = &vp_comp; vp_be.topology = t;
+  vp_comp.name = id >= 200 ? "xml" : "vpseed";      /* the core treats the XML backend specially (no hwlocVersion/ProcessName infos, no memory-tier guess) */ vp_be.component = &vp_comp; vp_be.topology = t;
   vp_be.phases = HWLOC_DISC_PHASE_GLOBAL; vp_be.discover = vp_seed_discover;
   t->backends = &vp_be; t->backend_phases = HWLOC_DISC_PHASE_GLOBAL;
   struct hwloc_disc_status ds; memset(&ds, 0, sizeof ds);
   int err = hwloc_discover(t, &ds);
+  vp_seed_err = err;
+  if (id >= 200 && err < 0) { vp_seed.topology = t; return t; }      /* a backend that may refuse its input: the caller looks at vp_seed_err */
   VP_ASSUME(err == 0);
-  if (id == 2) {
+  if (id == 2 || (id >= 100 && id < 200)) {
     /* IO/Misc attachment + reconnect, exactly what the later discovery phases do */
     vp_seed_discover_io(&vp_be, &ds);
     err = hwloc__reconnect(t, 0);
